@@ -86,7 +86,12 @@ func checkC11(c C11Case, env *Env) *Violation {
 	for fi, b := range a.bind {
 		f := c.WS.Files[fi]
 		for _, o := range b.Occs {
-			if o.Name.Off == o.Name.End || dcName(o.Name.Text) || (o.Decl != nil && o.Decl.Kind == reflua.DSelf) {
+			if gate("c05-same-name-init") && o.InAssignOfSameName {
+				// known finding C05-F1: a read inside a statement that assigns the same name
+				excludedIn(env)
+				continue
+			}
+			if o.Name.Off == o.Name.End || dcOcc(o) || (o.Decl != nil && o.Decl.Kind == reflua.DSelf) {
 				continue
 			}
 			if o.Decl == nil && len(a.globalDefs[o.Name.Text]) == 0 {
@@ -225,6 +230,19 @@ func checkC11(c C11Case, env *Env) *Violation {
 			el, ec := mapPos(k.File, k.EL, k.EC)
 			mapped[diagKey{k.File, sl, sc, el, ec, k.Type}] += n
 		}
+		if isLibSpelling(old) {
+			// The documented exemption "a local that aliases a library (local m = math) is not reported
+			// unused" is decided by the spelling of the initialiser: renaming a variable that is spelled
+			// like a library name legitimately changes the unused-local diagnostics of locals initialised
+			// with it. Those two types are left out of the comparison for such names.
+			for _, m := range []map[diagKey]int{mapped, newDiags} {
+				for k := range m {
+					if k.Type == 4 || k.Type == 17 {
+						delete(m, k)
+					}
+				}
+			}
+		}
 		if msg := diffDiagSets(mapped, newDiags); msg != "" {
 			return violf("diags-changed", "after renaming %s %q at %s to %q the diagnostics differ from the original ones (positions shifted): %s\n--- before\n%s--- after\n%s",
 				kind, old, at, c.NewName, msg, showWS(&c.WS), showWS(newWS))
@@ -321,11 +339,25 @@ func bindingIso(a, b *analysed) string {
 			if idx(x, x[i].Decl) != idx(y, y[i].Decl) {
 				return fmt.Sprintf("occurrence #%d (%q) is bound to declaration #%d before and #%d after", i, x[i].Name.Text, idx(x, x[i].Decl), idx(y, y[i].Decl))
 			}
-			if x[i].Decl == nil && y[i].Decl == nil {
-				// both global: the names must correspond (same name unless renamed)
-				if (x[i].Name.Text == x[0].Name.Text) != (y[i].Name.Text == y[0].Name.Text) {
-					return fmt.Sprintf("global occurrence #%d changed identity", i)
-				}
+		}
+		// globals: two global occurrences name the same global before iff they do after
+		firstX, firstY := map[string]int{}, map[string]int{}
+		for i := range x {
+			if x[i].Decl != nil || y[i].Decl != nil {
+				continue
+			}
+			fx, okx := firstX[x[i].Name.Text]
+			fy, oky := firstY[y[i].Name.Text]
+			if !okx {
+				firstX[x[i].Name.Text] = i
+				fx = i
+			}
+			if !oky {
+				firstY[y[i].Name.Text] = i
+				fy = i
+			}
+			if fx != fy {
+				return fmt.Sprintf("global occurrence #%d (%q / %q) changed identity", i, x[i].Name.Text, y[i].Name.Text)
 			}
 		}
 	}
@@ -347,3 +379,12 @@ func diffDiagSets(want, got map[diagKey]int) string {
 }
 
 func TestC11(t *testing.T) { runProp(t, "C11", genC11, checkC11) }
+
+// isLibSpelling: the name is spelled like a standard-library name the server knows.
+func isLibSpelling(n string) bool {
+	switch n {
+	case "type", "next", "file", "table", "string", "math", "io", "os":
+		return true
+	}
+	return dcName(n)
+}
